@@ -300,6 +300,9 @@ def T(e):
             return rt + sep + name + "(" + ",".join(T(a) for a in args) + ")"
         return name + "(" + ",".join(T(a) for a in args) + ")"
     if k in ("construct", "ctor"):
+        a_ = e.get("args", [])
+        if e.get("rec") in ("std::basic_string", "std::basic_string_view") and a_ and isinstance(strip(a_[0]), dict) and "s" in strip(a_[0]):
+            return json.dumps(strip(a_[0])["s"])       # std::string("lit") reads as the literal
         return short(e.get("rec") or e.get("type") or "T") + "{" + ",".join(T(a) for a in e.get("args", [])) + "}"
     if k == "lambda":
         return "lambda#%s" % e.get("id")
